@@ -39,6 +39,7 @@ partial def loop (env : Env) (hin hout : IO.FS.Stream) : IO Unit := do
   let line ← hin.getLine
   if line.isEmpty then return ()
   hout.putStrLn (handle env line)
+  hout.flush   -- the harness also talks to the driver as a co-process (h.Ref): answer line by line
   loop env hin hout
 
 def main (args : List String) : IO Unit := do
